@@ -432,6 +432,7 @@ STAT_FORMS = [
     "local p <const>, q <close> = 1, nil", "local r", "x = function() return 1 end", "x = {1, a = 2, [3] = 4; 5}",
     "x = a .. b .. 1", "x = -y ^ -2", "x = not (a == b)", "x = #t + 1", "x = 1 .. 2", "x = t[ [[k]] ]",
     "x = a .. b .. c .. d .. e", "x = a ^ b ^ c ^ d ^ e", "x = a - b - c - d - e", "x = a .. b + c .. d * e .. f",
+    "x = {f \";\", g ',', h '=', \"end\", k = '}', [\"]\"] = \")\"}", "f ';' g \",\" h '(' (i)\")\"",
     "local n = arg", "block = stmt", "do local indent end", "newline = arg.block",
     "x = 'a\\z --b' .. \"\\z--[[c]]d\"", "s = \"a\\z   --[[b]]c\" y = 1",
 ]
@@ -1468,6 +1469,11 @@ def run_c16(ctx: fw.Ctx) -> None:
     eval_lex(st, progs, values=False, comments=False)
     st2 = ctx.stream("corpus files")
     eval_lex(st2, [s for _, s in corpus_files() if "\r" not in s and (not ctx.quick or len(s) < 60000)], values=False, comments=False)
+    st_big = ctx.stream("very long lines and very many lines: columns and lines beyond 2^16 (a packed or narrowed position shows only there)")
+    long_str = "'" + "a" * 70000 + "'"
+    eval_lex(st_big, [f"x = {long_str} y = 2 z = 3\nw = 4", "--" + "c" * 66000 + "\nx = 1", "x = 1" + " " * 65540 + "y = 2 z = 3",
+                      "\n" * 66000 + "x = 1\ny = 2", "x = [[" + "\n" * 65600 + "]] y = 2\nz = 3"], values=False, comments=False)
+    st_big.exhaustive = True
     st3 = ctx.stream("position of the ParserError token on damaged programs")
     r = ctx.rng("c16m")
     items = []
@@ -2898,6 +2904,25 @@ def run_c12(ctx: fw.Ctx) -> None:
                 elif res.token.line != text.count("\n", 0, text.index(call)) + 1:
                     st_ret.fail("InvalidDependencyError does not designate the offending call", dict(case, token_line=res.token.line))
     st_ret.exhaustive = True
+    st_like = ctx.stream("calls that only LOOK like require(<string>) - method calls on or fields of a value named require, require as a field or method name: untouched, nothing raised")
+    for like in ["require:get('m0')", "local m = require:load('m0')", "x.require('m0')", "x:require('m0')", "require.m('m0')", "local v = require.sub.f 'm0'",
+                 "require:get('nosuch')", "x.require('nosuch')", "y = x:require 'nosuch'", "require['m0']('m0')", "z = require:new('m0'):init('m0')"]:
+        for exists in (True, False):
+            for wrap in ["{S}", "do {S} end", "function g() {S} end"]:
+                src = "start()\n" + wrap.replace("{S}", like) + "\ntail()\n"
+                files = {"main.lua": src}
+                if exists:
+                    files["m0.lua"] = "in_m0()\n"
+                case = {"kind": "filetree", "files": files, "dirs": [], "main": "main.lua", "search": [""]}
+                st_like.record(case, key=json.dumps(case, sort_keys=True))
+                status, res = resolve_tree(case)
+                if status != "ok":
+                    st_like.fail(f"a program without any require(<string>) call does not resolve: {status} {res!r}"[:300], case)
+                    continue
+                s0, plain = tparse(src)
+                if s0 != "ok" or absast.abs_chunk(res) != absast.abs_chunk(plain):
+                    st_like.fail("a call that only looks like require() was rewritten", case)
+    st_like.exhaustive = True
     st_rel = ctx.stream("a module that exists only next to the requiring file's *requirer* is not found (lookup starts at the file's own directory)")
     for variant in range(ctx.n(12, 120)):
         how = r.choice(["local m = require('lib.mod')", "f(require 'lib.mod')", "return require('lib.mod')", "require('lib.mod')",
